@@ -716,6 +716,37 @@ def teardown_facts(docs, tsdocs):
     return cond, steps, dtor_ok, drains_first
 
 
+
+def wake_policy(docs):
+    """SplitAndAddTask: the else-branch of `if (!pipe.WriterTryWriteFront(..))` (= successful write) must be exactly one
+    unconditional WakeThreads(..) call -> WakeEveryPush; a WakeThreads under a condition mentioning IsPipeEmpty -> WakeOnEmptyToNonEmpty"""
+    fn = None
+    for d in docs:
+        for n, ps in astutil.walk(d):
+            if n.get("kind") == "CXXMethodDecl" and n.get("name") == "SplitAndAddTask" and any(c.get("kind") == "CompoundStmt" for c in kids(n)):
+                fn = n
+    if fn is None:
+        raise FactError("TaskScheduler::SplitAndAddTask not found")
+
+    def mcalls(n):
+        return [kids(x)[0].get("name") for x, _ in astutil.walk(n) if x.get("kind") == "CXXMemberCallExpr" and kids(x) and kids(x)[0].get("kind") == "MemberExpr"]
+    ifs = [x for x, _ in astutil.walk(fn) if x.get("kind") == "IfStmt" and "WriterTryWriteFront" in mcalls(kids(x)[0])]
+    if len(ifs) != 1 or len(kids(ifs[0])) != 3:
+        return "WakeUnknown"
+    cond = kids(ifs[0])[0]
+    negated = any(x.get("kind") == "UnaryOperator" and x.get("opcode") == "!" for x, _ in astutil.walk(cond))
+    succ = kids(ifs[0])[2] if negated else kids(ifs[0])[1]
+    while succ.get("kind") == "CompoundStmt" and len(kids(succ)) == 1:
+        succ = kids(succ)[0]
+    if succ.get("kind") == "CXXMemberCallExpr" and mcalls(succ)[:1] == ["WakeThreads"]:
+        return "WakeEveryPush"
+    if succ.get("kind") == "IfStmt" and "WakeThreads" in mcalls(succ):
+        names = [ (y.get("referencedDecl") or {}).get("name", "") for y, _ in astutil.walk(kids(succ)[0])]
+        if "IsPipeEmpty" in mcalls(fn) and any("mpty" in n for n in names):
+            return "WakeOnEmptyToNonEmpty"
+    return "WakeUnknown"
+
+
 def coq_list(xs):
     return "[" + "; ".join(xs) + "]"
 
@@ -750,6 +781,7 @@ def main():
         tsdocs = dump(repo, inc, os.path.join(repo, "rkcommon/tasking/detail/TaskSys.cpp"), "rkcommon::tasking::detail",
                       os.path.join(work, "c02_tasksys.json"), ["-DRKCOMMON_TASKING_INTERNAL"])
         wcond, sdsteps, dtor_ok, drains_first = teardown_facts(docs2, tsdocs)
+        wpol = wake_policy(docs2)
         a_unknown = async_unknown(docs)
     except FactError as e:
         sys.stderr.write("gen_facts: %s\n" % e)
@@ -784,6 +816,8 @@ Definition shutdown_steps_src : list sdstep := %s.
 Definition dtor_shuts_down_src : bool := %s.
 (* initTaskSystemInternal drains the previous scheduler before g_ts is replaced (recorded; see the re-init finding / fix) *)
 Definition reinit_drains_old_first_src : bool := %s.
+(* SplitAndAddTask: when is a worker woken after a successful write into the pipe *)
+Definition wake_policy_src : wakepolicy := %s.
 
 (* async(): events on the heap packaged_task before / after schedule(closure), and in the closure *)
 Definition async_pre_src : list aev := %s.
@@ -802,13 +836,13 @@ Definition wait_fenced_src : bool := %s.
        coq_list(glue["tbb"][1]), coq_list(glue["omp"][1]), coq_list(glue["int"][1]), coq_list(glue["dbg"][1]),
        coq_list(glue["tbb"][2]), coq_list(glue["omp"][2]), coq_list(glue["int"][2]), coq_list(glue["dbg"][2]), a_unknown,
        pipe["WriterTryReadFront"], pipe["ReaderTryReadBack"], pipe["WriterTryWriteFront"],
-       wcond, coq_list(sdsteps), b(dtor_ok), b(drains_first),
+       wcond, coq_list(sdsteps), b(dtor_ok), b(drains_first), wpol,
        coq_list(pre), coq_list(post), coq_list(clos), coq_list(xs), seq, b(dec_after), b(wake_fenced), b(wait_fenced))
     old = open(out).read() if os.path.exists(out) else None
     if old != txt:
         open(out, "w").write(txt)
-    print("facts: order=%s task=%s get=%s dtor_waits=%s atomic=%s | async pre=%s post=%s body=%s | exec_range=%s tryrun=%s wake_fenced=%s wait_fenced=%s | flag stores=%s loads=%s | glue=%s async_unknown=%s pipe=%s teardown=%s"
-          % (order, task, kind, dtor_waits, flag_atomic, pre, post, clos, xs, seq, wake_fenced, wait_fenced, st_orders, ld_orders, glue, a_unknown, pipe, (wcond, sdsteps, dtor_ok, drains_first)))
+    print("facts: order=%s task=%s get=%s dtor_waits=%s atomic=%s | async pre=%s post=%s body=%s | exec_range=%s tryrun=%s wake_fenced=%s wait_fenced=%s | flag stores=%s loads=%s | glue=%s async_unknown=%s pipe=%s teardown=%s wake_policy=%s"
+          % (order, task, kind, dtor_waits, flag_atomic, pre, post, clos, xs, seq, wake_fenced, wait_fenced, st_orders, ld_orders, glue, a_unknown, pipe, (wcond, sdsteps, dtor_ok, drains_first), wpol))
 
 
 if __name__ == "__main__":
